@@ -121,6 +121,69 @@ func checkC02(c c02Case) (ci caseInfo, err error) {
 				return ci, fmt.Errorf("message %q completed after having been encoded while incomplete (%s): %s", msg.Header(), incomplete, firstDiff(got, want))
 			}
 			ci.label("msg:completed-after-incomplete-encoding")
+		} else {
+			// templates with ellipses: the ellipses are filled ONE AT A TIME (a partial fill each, in an order that varies,
+			// with counts 0..2), then the variables the expansions generated, then the header; the bytes must be those of
+			// the reference expansion
+			cur, ref := msg, c.Tree
+			hasDup := func(vs []string) bool {
+				seen := map[string]bool{}
+				for _, v := range vs {
+					if seen[v] {
+						return true
+					}
+					seen[v] = true
+				}
+				return false
+			}
+			for step := 0; step < 30; step++ {
+				mes, les := ellipsisNames(ref.Variables()), ellipsisNames(cur.Variables())
+				if len(mes) == 0 && len(les) == 0 {
+					break
+				}
+				if len(mes) != len(les) {
+					return ci, fmt.Errorf("after %d partial ellipsis fills the message lists the ellipses %q, the reference expansion %q", step, les, mes)
+				}
+				r := model.Mix64(uint64(c.Variant)*977 + uint64(step)*0x9E3779B9 + uint64(len(mes)))
+				k := len(mes) - 1 // the last one first, mostly: the others stay unfilled in front of it
+				if r%3 == 0 {
+					k = int(r>>8) % len(mes)
+				}
+				n := int(r>>20) % 3
+				next, _ := model.RefExpand(ref, map[string]int{mes[k]: n})
+				if hasDup(next.Variables()) {
+					ci.label("msg:staged-ellipsis-fill:stopped-at-duplicate-names")
+					return ci, nil
+				}
+				before := cur
+				if p, pmsg := try(func() { cur = before.FillVariables(map[string]interface{}{les[k]: n}) }); p {
+					return ci, fmt.Errorf("filling ellipsis %q alone with %d (step %d of a staged completion) is refused: %s", les[k], n, step+1, pmsg)
+				}
+				ref = next
+			}
+			if len(ellipsisNames(ref.Variables())) == 0 {
+				binds := singleFills(ref)
+				full, serr := substModel(ref, bindMap(binds))
+				hc := h
+				hc.Wait = boolToWait(h.Wait == 1)
+				if hc.Session == -1 {
+					hc.Session = 513
+				}
+				if serr == nil {
+					var done *ast.DataMessage
+					if p, pmsg := try(func() { done = completeMessage(cur, hc, assignMap(binds, c.Variant), c.Variant) }); p {
+						return ci, fmt.Errorf("completing the message after its ellipses were filled one at a time is refused: %s (variables %q)", pmsg, cur.Variables())
+					}
+					want, _, rerr := model.RefEncodeMsg(modelMsg(hc, full), nil)
+					if rerr != nil {
+						return ci, fmt.Errorf("harness: %v", rerr)
+					}
+					if got := done.ToBytes(); !bytes.Equal(got, want) {
+						return ci, fmt.Errorf("message %q completed after its ellipses were filled one at a time: %s (variables left: %q)", msg.Header(), firstDiff(got, want), done.Variables())
+					}
+					ci.label("msg:completed-after-staged-ellipsis-fills")
+				}
+			}
 		}
 		return ci, nil
 	}
